@@ -73,22 +73,22 @@ package oci
 //@   opt trust-frame
 //@   call writeIndexFile set indexVersion(s) = indexVersion(s) + (result == nil ? 1 : 0)
 //@   loop 0 invariant [objects] storeRI(s) && s.index != nil && s.index == old(s.index) && refMap != nil && alive(refMap) && tagged != nil && alive(tagged) && s.tagResolver == old(s.tagResolver) && (forall r string :: (r in refMap) == old(r in s.tagResolver.index) && (r in refMap ==> refMap[r] == old(s.tagResolver.index[r])))
-//@   loop 0 invariant [C08:every-visited-tag-written] forall r string :: r in $visited && isTagRef(refMap, r) ==> 0 <= siPos(r) && siPos(r) < len(manifests) && siSrc(siPos(r)) == r
-//@   loop 0 invariant [C08:entries-so-far-are-tag-entries] forall i int :: 0 <= i && i < len(manifests) ==> siSrc(i) in $visited && tagEntry(refMap, manifests[i], siSrc(i))
-//@   loop 0 invariant [C08:tagged-digests] (forall r string :: r in $visited && isTagRef(refMap, r) ==> refMap[r].Digest in tagged) && (forall d digest.Digest :: d in tagged ==> isTagRef(refMap, siTagOf(d)) && refMap[siTagOf(d)].Digest == d)
+//@   loop 0 invariant [C08,C10:every-visited-tag-written] forall r string :: r in $visited && isTagRef(refMap, r) ==> 0 <= siPos(r) && siPos(r) < len(manifests) && siSrc(siPos(r)) == r
+//@   loop 0 invariant [C08,C10:entries-so-far-are-tag-entries] forall i int :: 0 <= i && i < len(manifests) ==> siSrc(i) in $visited && tagEntry(refMap, manifests[i], siSrc(i))
+//@   loop 0 invariant [C08,C10:tagged-digests] (forall r string :: r in $visited && isTagRef(refMap, r) ==> refMap[r].Digest in tagged) && (forall d digest.Digest :: d in tagged ==> isTagRef(refMap, siTagOf(d)) && refMap[siTagOf(d)].Digest == d)
 //@   loop 0 backedge set siSrc(len(manifests)) = $key
 //@   loop 0 backedge set siPos($key) = len(manifests)
 //@   loop 0 backedge set siTagOf(refMap[$key].Digest) = (isTagRef(refMap, $key) ? $key : siTagOf(refMap[$key].Digest))
 //@   loop 1 invariant [objects] storeRI(s) && s.index != nil && s.index == old(s.index) && refMap != nil && alive(refMap) && tagged != nil && alive(tagged) && s.tagResolver == old(s.tagResolver) && (forall r string :: (r in refMap) == old(r in s.tagResolver.index) && (r in refMap ==> refMap[r] == old(s.tagResolver.index[r])))
-//@   loop 1 invariant [C08:every-tag-written] forall r string :: isTagRef(refMap, r) ==> 0 <= siPos(r) && siPos(r) < len(manifests) && siSrc(siPos(r)) == r
-//@   loop 1 invariant [C08:tagged-digests] (forall r string :: isTagRef(refMap, r) ==> refMap[r].Digest in tagged) && (forall d digest.Digest :: d in tagged ==> isTagRef(refMap, siTagOf(d)) && refMap[siTagOf(d)].Digest == d)
-//@   loop 1 invariant [C08:every-visited-untagged-digest-entry-written] forall r string :: r in $visited && r in refMap && r == refMap[r].Digest && !(refMap[r].Digest in tagged) ==> 0 <= siPos(r) && siPos(r) < len(manifests) && siSrc(siPos(r)) == r
-//@   loop 1 invariant [C08:entries-of-tags-carry-the-name] forall i int :: 0 <= i && i < len(manifests) && isTagRef(refMap, siSrc(i)) ==> tagEntry(refMap, manifests[i], siSrc(i))
-//@   loop 1 invariant [C08:other-entries-are-untagged-digest-entries] forall i int :: 0 <= i && i < len(manifests) && !isTagRef(refMap, siSrc(i)) ==> digestEntry(refMap, manifests[i], siSrc(i)) && !(refMap[siSrc(i)].Digest in tagged)
+//@   loop 1 invariant [C08,C10:every-tag-written] forall r string :: isTagRef(refMap, r) ==> 0 <= siPos(r) && siPos(r) < len(manifests) && siSrc(siPos(r)) == r
+//@   loop 1 invariant [C08,C10:tagged-digests] (forall r string :: isTagRef(refMap, r) ==> refMap[r].Digest in tagged) && (forall d digest.Digest :: d in tagged ==> isTagRef(refMap, siTagOf(d)) && refMap[siTagOf(d)].Digest == d)
+//@   loop 1 invariant [C08,C10:every-visited-untagged-digest-entry-written] forall r string :: r in $visited && r in refMap && r == refMap[r].Digest && !(refMap[r].Digest in tagged) ==> 0 <= siPos(r) && siPos(r) < len(manifests) && siSrc(siPos(r)) == r
+//@   loop 1 invariant [C08,C10:entries-of-tags-carry-the-name] forall i int :: 0 <= i && i < len(manifests) && isTagRef(refMap, siSrc(i)) ==> tagEntry(refMap, manifests[i], siSrc(i))
+//@   loop 1 invariant [C08,C10:other-entries-are-untagged-digest-entries] forall i int :: 0 <= i && i < len(manifests) && !isTagRef(refMap, siSrc(i)) ==> digestEntry(refMap, manifests[i], siSrc(i)) && !(refMap[siSrc(i)].Digest in tagged)
 //@   loop 1 backedge set siSrc(len(manifests)) = $key
 //@   loop 1 backedge set siPos($key) = (isTagRef(refMap, $key) ? siPos($key) : len(manifests))
-//@   ensures [C08:index-is-the-projection-of-the-resolver] result == nil ==> (forall r string :: old(r in s.tagResolver.index) && r != old(s.tagResolver.index[r]).Digest ==> 0 <= siPos(r) && siPos(r) < len(s.index.Manifests) && siSrc(siPos(r)) == r)
-//@   ensures [C08:nothing-else-is-written] result == nil ==> (forall i int :: 0 <= i && i < len(s.index.Manifests) ==> old(siSrc(i) in s.tagResolver.index) && K(s.index.Manifests[i]) == K(old(s.tagResolver.index[siSrc(i)])))
+//@   ensures [C08,C10:index-is-the-projection-of-the-resolver] result == nil ==> (forall r string :: old(r in s.tagResolver.index) && r != old(s.tagResolver.index[r]).Digest ==> 0 <= siPos(r) && siPos(r) < len(s.index.Manifests) && siSrc(siPos(r)) == r)
+//@   ensures [C08,C10:nothing-else-is-written] result == nil ==> (forall i int :: 0 <= i && i < len(s.index.Manifests) ==> old(siSrc(i) in s.tagResolver.index) && K(s.index.Manifests[i]) == K(old(s.tagResolver.index[siSrc(i)])))
 //@   ensures result == nil ==> indexVersion(s) == old(indexVersion(s)) + 1
 //@   ensures result != nil ==> indexVersion(s) == old(indexVersion(s))
 //@   modifies ghost.indexVersion, alloc, ocispec.Index.Manifests, elems[ocispec.Descriptor], new map[string]string, new map[string]unit, new map[string]ocispec.Descriptor
@@ -214,6 +214,17 @@ package oci
 //@   ensures [C06:tag-value] s.tagResolver.index[reference] == desc
 //@   ensures [C06:others-kept] forall r string :: r != reference && r != desc.Digest ==> s.tagResolver.index[r] == old(s.tagResolver.index[r])
 //@   modifies map[string]ocispec.Descriptor, map[digest.Digest]set.Set[string], map[string]unit, ghost.indexVersion, ocispec.Index.Manifests, elems[ocispec.Descriptor], new map[string]string, alloc
+//@
+//@ func (*ReadOnlyStorage).Exists
+//@   requires [wf] s != nil
+//@   modifies alloc
+//@   opt trust-frame
+//@
+//@ func (*Store).Tag
+//@   serves C01, C06
+//@   requires [ri] storeRI(s) && s.storage.ReadOnlyStorage != nil
+//@   ensures [C01,C06:successful-tag-records-the-given-descriptor] result == nil ==> reference in s.tagResolver.index && s.tagResolver.index[reference] == desc
+//@   ensures [C06:lock-released] held(lockOf(s, "sync")) == 0
 //@
 //@ func (*Store).Push
 //@   requires [ri] storeRI(s)
